@@ -35,6 +35,11 @@ func WrapStorageWithEncryption(storage common.TokenStorage, encryptor TokenEncry
 
 // Save encrypt and save data with defined id and context
 func (s *secureWrapper) Save(id []byte, context common.TokenContext, data []byte) error {
+	// The token of a zero-length value is zero-length too. Secure Cell refuses empty messages
+	// and there is nothing to protect: store it as is.
+	if len(data) == 0 {
+		return s.storage.Save(id, context, data)
+	}
 	encrypted, err := s.encryptor.Encrypt(data, context)
 	if err != nil {
 		return err
@@ -47,6 +52,9 @@ func (s *secureWrapper) Get(id []byte, context common.TokenContext) ([]byte, err
 	val, err := s.storage.Get(id, context)
 	if err != nil {
 		return nil, err
+	}
+	if len(val) == 0 {
+		return val, nil
 	}
 	return s.encryptor.Decrypt(val, context)
 }
